@@ -165,13 +165,20 @@ BMP_KWONLY = {"send_scp", "set_led"}
 def plan(tier):
     n = 110 if tier == "quick" else 9000
     return [("mc", n * len(PLANS)), ("nesting", 3 * n), ("connections", 2 * n),
-            ("bmp", 4 * n), ("inventory", 1),
+            ("bmp", 4 * n), ("inventory", 1), ("siblings", n // 2),
             ("deep", 6 if tier == "quick" else 120)]
 
 
 def gen(cls, idx, rng, tier):
     if cls == "inventory":
         return dict(kind="inventory")
+    if cls == "siblings":
+        return dict(kind="siblings", seed=rng.randrange(1 << 30),
+                    a=dict(x=rng.randrange(3), y=rng.randrange(3),
+                           p=rng.randrange(1, 17)),
+                    b=(rng.randrange(3), rng.randrange(3)),
+                    app=rng.choice([None, 31, 77]),
+                    order=rng.randrange(4))
     if cls == "deep":
         # "all nestings": hundreds of blocks open at once
         depth = rng.choice([40, 255, 256, 257, 300, 700])
@@ -768,6 +775,63 @@ def run_nesting(case, ctx):
     ctx.mark_nontrivial()
 
 
+def run_siblings(case, ctx):
+    """Several controller objects in one process (an application talking to
+    its machine through two of them, or to two machines): what one of them
+    is told about defaults - at the bottom of its stack with
+    update_current_context, in a block, through application() - is nothing
+    the others know."""
+    r = fresh(case["seed"])
+    mk = lambda: r.mcm.MachineController("eth-root", n_tries=5, timeout=0.5)
+    a = r.mc
+    b = mk() if case["order"] & 1 else None       # a sibling born before ...
+    base = dict(a.get_context_arguments())
+    told = dict(case["a"])
+    if case["app"] is not None:
+        told["app_id"] = case["app"]
+    a.update_current_context(**told)
+    if b is None:
+        b = mk()                                   # ... or after the telling
+    c = mk()
+    where = dict(told=told, order=case["order"])
+    for name, other in (("sibling", b), ("later sibling", c)):
+        ctx.hit("sibling_controller")
+        check(other.get_context_arguments() == base, "context-shared",
+              "%s controller has context %r after ANOTHER controller was "
+              "told %r" % (name, other.get_context_arguments(), told),
+              **where)
+        bx, by = case["b"]
+        mark = len(r.net.log)
+        other.read(0x60000000, 4, x=bx, y=by)
+        # (a new controller first asks the machine for its buffer size)
+        d = [q for q in dests(sent(r, mark)) if q[1] == M.CMD["read"]]
+        check(d and all(q[0] == (bx, by, 0) for q in d), "wrong-destination",
+              "%s controller's read(x=%d, y=%d) went to %r" %
+              (name, bx, by, [q[0] for q in d][:2]), **where)
+        try:
+            other.read(0x60000000, 4)
+        except TypeError:
+            pass
+        else:
+            check(False, "missing-argument-accepted",
+                  "%s controller read without x and y (another controller "
+                  "was told %r)" % (name, told), **where)
+    # and the one that was told still knows
+    mark = len(r.net.log)
+    a.read(0x60000000, 4)
+    d = [q for q in dests(sent(r, mark)) if q[1] == M.CMD["read"]]
+    check(d and d[0][0] == (told["x"], told["y"], told["p"]),
+          "wrong-destination", "the told controller's read went to %r" %
+          (d[:1],), **where)
+    if case["order"] & 2:
+        with b(x=2, y=2, p=9), c.application(88):
+            check(a.get_context_arguments() ==
+                  dict(base, **told), "context-shared",
+                  "blocks entered on siblings changed the first controller's "
+                  "context to %r" % (a.get_context_arguments(),), **where)
+    ctx.mark_nontrivial()
+
+
 def run_deep(case, ctx):
     import contextlib
     import random
@@ -1036,6 +1100,8 @@ def run(case, ctx):
         run_nesting(case, ctx)
     elif k == "deep":
         run_deep(case, ctx)
+    elif k == "siblings":
+        run_siblings(case, ctx)
     elif k == "connections":
         run_connections(case, ctx)
     elif k == "bmp":
